@@ -156,7 +156,7 @@ func TestVerifC05(t *testing.T) {
 	alpha := []string{"1", "7", "a", "\x01", "A", f1, f4}
 	maxLen := 5
 	if thorough {
-		maxLen = 7
+		maxLen = 8
 	}
 	var rec func(p string, d int)
 	rec = func(p string, d int) {
@@ -187,9 +187,9 @@ func TestVerifC05(t *testing.T) {
 	flush()
 
 	// 3. random contents
-	nRandom := 20000
+	nRandom := 100000
 	if thorough {
-		nRandom = 1500000
+		nRandom = 3000000
 	}
 	var all []rune
 	for c := rune(0); c < 128; c++ {
